@@ -2,18 +2,61 @@
 from extract import emitter, lean_str, lean_str_list, lean_bytes
 
 
+def _regex_shape(pattern):
+    """(ranges, min, max, end) for patterns of the shape ^[class]{m,n}($|\\Z) — anything else is refused"""
+    import re._parser as sp
+    tree = list(sp.parse(pattern))
+    ops = [(str(op), av) for op, av in tree]
+    if len(ops) != 3 or ops[0][0] != "AT" or str(ops[0][1]) != "AT_BEGINNING" or ops[1][0] != "MAX_REPEAT" or ops[2][0] != "AT":
+        raise ValueError(f"pattern outside the modelled subset: {pattern!r}")
+    lo, hi, body = ops[1][1]
+    body = list(body)
+    if len(body) != 1 or str(body[0][0]) != "IN":
+        raise ValueError(f"pattern outside the modelled subset: {pattern!r}")
+    ranges = []
+    for op, av in body[0][1]:
+        if str(op) == "RANGE":
+            ranges.append((av[0], av[1]))
+        elif str(op) == "LITERAL":
+            ranges.append((av, av))
+        else:
+            raise ValueError(f"pattern outside the modelled subset: {pattern!r}")
+    end = {"AT_END": "dollar", "AT_END_STRING": "Z"}[str(ops[2][1])]
+    return ranges, int(lo), int(hi), end
+
+
 @emitter("Grants.lean")
 def grants(repo):
     from authlib.oauth2.rfc6749 import grants as g
-    from authlib.oauth2.rfc6750 import BearerTokenGenerator
+    from authlib.oidc.core import grants as og
+    from authlib.oauth2.rfc7636 import challenge as ch
+    from authlib.oauth2.rfc8628 import DeviceCodeGrant
     lines = ["namespace Generated.Grants", ""]
-    lines.append("/-- `GRANT_TYPE` of the built-in grants -/")
-    lines.append("def grantTypes : List (String × String) := [")
-    items = []
-    for cls in (g.AuthorizationCodeGrant, g.ImplicitGrant, g.ResourceOwnerPasswordCredentialsGrant,
-                g.ClientCredentialsGrant, g.RefreshTokenGrant):
-        items.append(f"  ({lean_str(cls.__name__)}, {lean_str(cls.GRANT_TYPE)})")
-    lines.append(",\n".join(items) + "]")
+    classes = [("code", g.AuthorizationCodeGrant), ("implicit", g.ImplicitGrant), ("oidcImplicit", og.OpenIDImplicitGrant), ("hybrid", og.OpenIDHybridGrant)]
+    lines.append("/-- `RESPONSE_TYPES` of the authorization-endpoint grants -/")
+    for nm, cls in classes:
+        lines.append(f"def {nm}ResponseTypes : List String := " + lean_str_list(sorted(cls.RESPONSE_TYPES)))
+    lines.append("")
+    lines.append("/-- `ERROR_RESPONSE_FRAGMENT` / default response mode: does the grant put errors in the fragment -/")
+    for nm, cls in classes:
+        lines.append(f"def {nm}ErrorFragment : Bool := " + ("true" if cls.ERROR_RESPONSE_FRAGMENT else "false"))
+    lines.append("def oidcDefaultResponseMode : String := " + lean_str(og.OpenIDImplicitGrant.DEFAULT_RESPONSE_MODE))
+    lines.append("def hybridDefaultResponseMode : String := " + lean_str(og.OpenIDHybridGrant.DEFAULT_RESPONSE_MODE))
+    lines.append("")
+    lines.append("/-- `TOKEN_ENDPOINT_AUTH_METHODS` as shipped (the reference integrator widens some of them, see memserver.py) -/")
+    for nm, cls in classes + [("password", g.ResourceOwnerPasswordCredentialsGrant), ("clientCredentials", g.ClientCredentialsGrant), ("refresh", g.RefreshTokenGrant),
+                              ("device", DeviceCodeGrant)]:
+        lines.append(f"def {nm}AuthMethods : List String := " + lean_str_list(list(cls.TOKEN_ENDPOINT_AUTH_METHODS)))
+    lines.append("")
+    for nm, pat in (("codeVerifier", ch.CODE_VERIFIER_PATTERN.pattern), ("codeChallenge", ch.CODE_CHALLENGE_PATTERN.pattern)):
+        ranges, lo, hi, end = _regex_shape(pat)
+        lines.append(f"/-- `{pat}` as (character ranges, min, max, end anchor) -/")
+        lines.append(f"def {nm}Ranges : List (Nat × Nat) := [" + ", ".join(f"({a}, {b})" for a, b in ranges) + "]")
+        lines.append(f"def {nm}Min : Nat := {lo}")
+        lines.append(f"def {nm}Max : Nat := {hi}")
+        lines.append(f"def {nm}EndIsDollar : Bool := " + ("true" if end == "dollar" else "false"))
+    lines.append("def supportedChallengeMethods : List String := " + lean_str_list(list(ch.CodeChallenge.SUPPORTED_CODE_CHALLENGE_METHOD)))
+    lines.append("def defaultChallengeMethod : String := " + lean_str(ch.CodeChallenge.DEFAULT_CODE_CHALLENGE_METHOD))
     lines.append("")
     lines.append("end Generated.Grants")
     return "\n".join(lines) + "\n"
